@@ -100,7 +100,7 @@ class Indentation(afmformats.AFMForceDistance):
                     fp.pop(ax)
 
         # remember preprocessing
-        self.preprocessing = preprocessing
+        self.preprocessing = copy.deepcopy(preprocessing)
         self.preprocessing_options = copy.deepcopy(options)
 
         return self._preprocessing_details
@@ -294,7 +294,9 @@ class Indentation(afmformats.AFMForceDistance):
         if model_key is not None:
             self.fit_properties["model_key"] = model_key
         if self.fit_properties.get("params_initial", False):
-            parms = self.fit_properties["params_initial"]
+            # return a copy (editing the returned parameters in-place
+            # must not modify the stored fit properties)
+            parms = copy.deepcopy(self.fit_properties["params_initial"])
         elif "model_key" in self.fit_properties:
             parms = guess_initial_parameters(
                 self,
